@@ -77,6 +77,16 @@ def run(report: Report, tier, seed):
     if abad:
         b = abad[0]
         fails = [{"input": {"abisub": [b["seed"], b["version"], b["opts"]]}, "mismatches": [{"what": b["problems"][0]}], "teal": b.get("teal")}] + fails
+    from . import recur_scenarios
+    rr = pool_map(recur_scenarios.case, recur_scenarios.jobs(tier))
+    rbad = [r for r in rr if r["problems"]]
+    report.bounded.append(Bounded(function="mutually / self recursive routines of every pair of kinds (plain value / plain none / ABI output / ABI void)",
+                                  contract="the call returns the value of the Python recurrence and a local written before the re-entrant call is intact after it, in both calling conventions",
+                                  bound=f"{len(rr)} (caller kind, callee kind, kind of local, self/mutual) scenarios x versions 6..10 x 9 option settings x depths {recur_scenarios.DEPTHS}",
+                                  cases=sum(r["ran"] for r in rr), distinct_nontrivial=len(rr), failures=len(rbad)))
+    if rbad:
+        b = rbad[0]
+        fails = [{"input": {"recursion": b["job"]}, "mismatches": [{"what": f"recursion scenario {b['job']} v{b['problems'][0].get('version')} {b['problems'][0].get('setting')}: {b['problems'][0]['what']}"}]}] + fails
     from vf.core import use_repo
     use_repo()
     from . import graph_native
@@ -98,7 +108,7 @@ def run(report: Report, tier, seed):
     report.settle_refuted(search)
     if fails and not any(o.status == "refuted" for o in report.obs):
         f = fails[0]
-        report.violation(Violation(key=(f"bounded:{f['input']['spec']['seed']}:{f['input']['spec']['version']}" if "spec" in f["input"] else f"abisub:{f['input']['abisub']}"),
+        report.violation(Violation(key=(f"bounded:{f['input']['spec']['seed']}:{f['input']['spec']['version']}" if "spec" in f["input"] else (f"abisub:{f['input']['abisub']}" if "abisub" in f["input"] else f"recursion:{f['input']['recursion']}")),
                                    what=f"compiled program differs from its description: {f['mismatches'][0]['what'][:300]}",
                                    replay=f, confirmed_native=True))
 
@@ -110,6 +120,11 @@ def replay(data):
         from . import abisub
         out = abisub.case(tuple(nat["input"]["abisub"]))
         print(out["problems"])
+        return 1 if out["problems"] else 0
+    if (nat.get("input") or {}).get("recursion"):
+        from . import recur_scenarios
+        out = recur_scenarios.case(tuple(nat["input"]["recursion"]))
+        print([{k: v for k, v in p.items() if k != "teal"} for p in out["problems"][:2]])
         return 1 if out["problems"] else 0
     spec = (nat.get("input") or {}).get("spec")
     if not spec:
